@@ -75,7 +75,12 @@ func checkSimulationCopies(c *core.Ctx, rule string) {
 		if !strings.HasSuffix(fn.Signature.Recv().Type().String(), "swap.PairV2") {
 			continue // the V1 module is not wired into the live state (C07.inventory wiring rule)
 		}
-		for _, b := range fn.Blocks {
+		// the copy may be built by a helper that only this function calls
+		var blocks []*ssa.BasicBlock
+		for _, g := range append([]*ssa.Function{fn}, c.Helpers(fn)...) {
+			blocks = append(blocks, g.Blocks...)
+		}
+		for _, b := range blocks {
 			for _, in := range b.Instrs {
 				mu, ok := in.(*ssa.MapUpdate)
 				if !ok {
